@@ -413,8 +413,9 @@ func evalConstructorDeclareStmt(vm *r.VM, node *syntax.FunctionDeclareStmt) erro
 	}
 	// only a type defined by a program module takes a constructor: the predefined types
 	// (异常) belong to the built-in module, which has no scope to run a method body in,
-	// and they are shared by every execution
-	if module == nil || module.GetID() == r.NATIVE_CODE_MODULE_ID {
+	// and they are shared by every execution - and so are the types a library exports
+	// (a library's module has no program; its class objects live as long as the process)
+	if module == nil || module.GetID() == r.NATIVE_CODE_MODULE_ID || module.GetProgram() == nil {
 		return zerr.InvalidClassType(className.GetLiteral())
 	}
 
